@@ -229,28 +229,3 @@ ALPHABET = list("MITmitANDandORorWITHwith()()  +-.0") + ["LicenseRef-", "license
 def arbitrary(rng):
     n = rng.choice([0, 1, 2, 3, 5, 8, 13, 21])
     return "".join(rng.choice(ALPHABET) for _ in range(n))
-
-
-def skeleton(rng):
-    """a random string over F a o ( ) — biased towards nearly valid Python expressions"""
-    if rng.random() < 0.35:
-        n = rng.randrange(0, 16)
-        return "".join(rng.choice("FFao()") for _ in range(n))
-    # grammar-directed with occasional damage
-    def e(d):
-        r = rng.random()
-        if d > 4 or r < 0.3:
-            a = rng.choice(["F", "F", "F", "()", "F()", "F(F)", "()()", "(F)"])
-            return a
-        if r < 0.55:
-            return e(d + 1) + "a" + e(d + 1)
-        if r < 0.8:
-            return e(d + 1) + "o" + e(d + 1)
-        if r < 0.93:
-            return "(" + e(d + 1) + ")"
-        return e(d + 1) + "(" + (e(d + 1) if rng.random() < 0.7 else "") + ")"
-    s = e(0)
-    if rng.random() < 0.4 and s:
-        k = rng.randrange(len(s))
-        s = rng.choice([s[:k] + s[k + 1 :], s[:k] + rng.choice("Fao()") + s[k:], s[:k] + rng.choice("Fao()") + s[k + 1 :]])
-    return s
